@@ -183,7 +183,16 @@ class RelayWorld:
         if self.registry_hook:
             sim.hooks_after_step.append(self.registry_hook)
         def in_command():
-            return any((not c.task.done()) and c.recv_fut is None for c in self.clients)
+            # a handler is in the middle of a command (e.g. sleeping in a throttle), or a client
+            # script still has frames to send (it is in a "wait")
+            for c in self.clients:
+                if c.task.done():
+                    continue
+                if c.recv_fut is None:
+                    return True
+                if c.pos < len(c.script) and not c.disconnected and c.closed is None:
+                    return True
+            return False
 
         await sim.quiescent(self.quiet_horizon, unless=in_command)
         # ---- quiescence: faults have stopped, everything that could run has run ----------
